@@ -71,16 +71,37 @@ var supportRules = map[string]func(*Report){
 	"close-reports-errors":          ruleCloseReportsErrors,
 	"pool-flush-complete":           rulePoolFlushComplete,
 	"translate-all":                 ruleTranslateAll,
-	"fc-list-nonnil":                ruleFCListNonNil,
-	"file-leak":                     ruleFileLeak,
-	"field-file-replaced":           ruleFieldFileReplaced,
-	"remap-offset":                  ruleRemapOffset,
-	"chunk-file-fresh":              ruleChunkFileFresh,
-	"notify":                        ruleNotify,
-	"notify-reset":                  ruleNotifyReset,
-	"wait-protocol":                 ruleWaitProtocol,
-	"flusher":                       ruleFlusher,
-	"header-before-remove":          func(r *Report) { ruleHeaderBeforeRemove(r, "header-before-remove") },
+	"fc-unknown-closed":             ruleFCUnknownClosed,
+	"fc-drop-all":                   ruleFCDropAll,
+	"header-preserved":              ruleHeaderPreserved,
+	"remap-completion":              ruleRemapCompletion,
+	"getsize":                       ruleGetSize,
+	"lock-paths":                    ruleLockPaths,
+	"pos-width":                     rulePosWidth,
+	"location-after-rollover":       ruleLocationAfterRollover,
+	"open-length":                   ruleOpenLength,
+	"index-open-limit":              ruleIndexOpenLimit,
+	"bad-index-removal":             ruleBadIndexRemoval,
+	"reloc-keys":                    ruleRelocKeys,
+	"absent-justified":              ruleAbsentJustified,
+	"append-flags":                  ruleAppendFlags,
+	"error-wrap":                    ruleErrorWrap,
+	"movefiles-order":               ruleMoveFilesOrder,
+	"lock-balanced": func(r *Report) {
+		reportBalanced(r, "lock-balanced")
+		r.Min("lock-balanced", 40)
+	},
+	"scan-framing":         ruleScanFraming,
+	"fc-list-nonnil":       ruleFCListNonNil,
+	"file-leak":            ruleFileLeak,
+	"field-file-replaced":  ruleFieldFileReplaced,
+	"remap-offset":         ruleRemapOffset,
+	"chunk-file-fresh":     ruleChunkFileFresh,
+	"notify":               ruleNotify,
+	"notify-reset":         ruleNotifyReset,
+	"wait-protocol":        ruleWaitProtocol,
+	"flusher":              ruleFlusher,
+	"header-before-remove": func(r *Report) { ruleHeaderBeforeRemove(r, "header-before-remove") },
 	"race": func(r *Report) {
 		la, rt := runLockAnalysis(r, "race")
 		reportRaces(r, la, rt, "race", nil, nil)
@@ -91,16 +112,16 @@ var supportRules = map[string]func(*Report){
 // rule groups
 var (
 	grpMap = []string{"keycheck", "samevalue-guard", "opaque-value", "immutable-noeffect", "pool-order", "predict", "splice", "pos-codec",
-		"iterate-all", "config-wiring", "index-names-new-location"}
+		"iterate-all", "config-wiring", "index-names-new-location", "pos-width", "location-after-rollover", "bad-index-removal", "absent-justified", "error-wrap", "getsize"}
 	grpGC = []string{"gc-mark-guard", "primary-mark", "retain", "reloc-binding", "gc-flush-first", "gc-not-current", "free-after-index", "togc",
 		"deleted-check", "header-before-remove", "firstfile-guard", "merge-framing", "span-pair", "rescan-applies-all", "freelist-consume",
-		"scan-complete-before-truncate"}
+		"scan-complete-before-truncate", "scan-framing", "reloc-keys", "header-preserved"}
 	grpPools = []string{"atomic-rmw", "pool-swap", "lookup-both-pools", "published-bytes-immutable", "pool-values-fresh", "bucket-after-write", "pool-flush-complete"}
 	// a writer blocked by the rate limiter must be woken: "every call returns"
-	grpBackpressure = []string{"notify", "notify-reset", "wait-protocol", "flusher"}
-	grpOrder        = []string{"commit-order", "flush-callers", "header-persist", "close-reports-errors", "rollover-switch"}
-	grpFormat       = []string{"layout", "predict", "pos-codec", "rollover-siblings", "strip-whole-bytes"}
-	grpCache        = []string{"fc-close-guard", "fc-identity", "fc-refs", "fc-removed-writes", "fc-shrink", "fc-locked", "fc-client"}
+	grpBackpressure = []string{"notify", "notify-reset", "wait-protocol", "flusher", "lock-balanced", "lock-paths"}
+	grpOrder        = []string{"commit-order", "flush-callers", "header-persist", "header-preserved", "close-reports-errors", "rollover-switch"}
+	grpFormat       = []string{"layout", "predict", "pos-codec", "rollover-siblings", "strip-whole-bytes", "scan-framing", "pos-width", "location-after-rollover", "open-length", "index-open-limit", "append-flags"}
+	grpCache        = []string{"fc-close-guard", "fc-identity", "fc-refs", "fc-removed-writes", "fc-shrink", "fc-locked", "fc-client", "fc-unknown-closed", "fc-drop-all", "fc-list-nonnil"}
 )
 
 func (r *Report) support(groups ...[]string) {
